@@ -36,6 +36,7 @@ ASSUMPTIONS = [
     "one empty line after the hex block is tolerated (the statement does not forbid it); every non-empty hex line is checked",
 ]
 TIMEOUT = {"quick": 900, "thorough": 6 * 3600}
+OPTIMIZED_SHARDS = ("bf3_02", "bec2_03")  # these shards also run under python -O
 NSH = 16
 OFFSETS = [0, 1, 5, 255, 256, 65535, 65536, 0x7FFFFFF0, 0x80000000, 0xFFFF0000]
 
